@@ -174,6 +174,49 @@ def execute(case):
     return out, world, peer, record, (gconn[0] if gconn else None)
 
 
+def run_epm_script(case) -> dict:
+    """{"epm_script": [...], "flavour": fl, "seed": s}: the ENDPOINT MAPPER hop of _get_key (unauthenticated) meets a scripted
+    server: its bind_ack rejects the offered context (user / provider rejection, only a negotiate_ack, an empty result list) or is a
+    bind_nak.  Fail closed: no request is written on that connection and the call raises; the key service is never dialled."""
+    import dpapi_ng._client as dclient
+
+    script, fl = case["epm_script"], case["flavour"]
+    world = W.World(case.get("seed", 0))
+    peer = HandshakePeer(script, {"legs": 1, "sig": 16})
+    world.add_route(DC, 135, peer)
+    sd = b"\x01\x00\x04\x80" + b"\x00" * 16
+    with world.installed(ctx_factory=drive.stub_ctx_factory({"legs": 2, "sig": 16}, [])):
+        if fl == "sync":
+            out = drive.classify(lambda: dclient._sync_get_key(DC, sd, None, 1, 2, 3))
+        else:
+            out = drive.classify(lambda: drive.run_async(world, lambda: dclient._async_get_key(DC, sd, None, 1, 2, 3), random.Random(case.get("seed", 0))))
+    conn = next((c for c in world.conns if c.port == 135), None)
+    viol = None
+    probes = {"epm_hop_scripted": 1}
+
+    def V(cond, detail):
+        return common.violation("C15", "d", fl + "-getkey-epm", cond, "", "", f"{detail}; mapper script={script} outcome={out.brief()} {out.exc!r}")
+
+    pdus = []
+    if conn is not None:
+        try:
+            pdus = [rpce.parse_pdu(r) for r in rpce.split_stream(bytearray(b"".join(conn.tx_log)))]
+        except Exception as e:  # noqa: BLE001
+            viol = V("client-pdu-undecodable", f"client wrote bytes the independent decoder rejects: {e!r}")
+    first = script[0]
+    accepted = first[0] == "ack" and first[2][:1] == "A"
+    if viol is None and not accepted:
+        probes["epm_context_not_accepted"] = 1
+        if any(p_["ptype"] == rpce.REQUEST for p_ in pdus):
+            viol = V("request-on-rejected-context", "the mapper did not accept the offered presentation context, yet an ept_map request was written on that connection")
+        elif out.kind != "raise":
+            viol = V("no-error", "the mapper did not accept the offered presentation context but the call did not raise")
+        elif any(a[1] != 135 for a in world.connect_attempts):
+            viol = V("dialled-despite-rejection", f"connections were made to {world.connect_attempts}")
+    return {"viol": viol, "digest": world.digest() + out.brief(), "key": common.key_hash(case), "fired": {"script_elements_played": len(peer.sent)}, "probes": probes,
+            "vtime_ns": world.stats.get("vtime_ns", 0)}
+
+
 def run_thread_pair(case) -> dict:
     """{"pair": [caseA, caseB], "policy": ...}: two caller threads of one process run two handshakes (raw sync client) against two
     servers that play different scripts - typically one that advertises header signing and one that does not; each conversation
@@ -579,7 +622,7 @@ class C15(common.Check):
             "a missing token or a cleared header-sign flag; distinct = distinct (cfg, script, flavour, api). Real-context cases: NTLM and "
             "Negotiate->NTLM handshakes (recorded through a transparent proxy) against a real acceptor, header signing on/off, conforming and "
             "cut short by bind_nak / fault / EOF / request after 0..3 client PDUs. Fault: the stream ends INSIDE a bind_ack / alter_context_resp (1..70 bytes in): the call must raise, "
-            "no further client PDU, no step() fed from the truncated message. A slow server whose handshake message (or reply) arrives after 31 s .. 2 h: judged like the prompt one.")
+            "no further client PDU, no step() fed from the truncated message. A slow server whose handshake message (or reply) arrives after 31 s .. 2 h: judged like the prompt one. The endpoint-mapper hop against a scripted server that does not accept the offered context (no request on that connection, the call raises, the key service is not dialled). A slow security provider (one step() leg takes 16 s .. 10 min; on the async client the executor job's result arrives that much later).")
     components = {"client": "real (RpcClient.bind/request, _sync_get_key/_async_get_key, AuthenticationProvider)",
                   "peer": "scripted (ref.rpce encoders)", "security context": "stub (StubCtx, records every call); plus the real pyspnego NTLM and Negotiate->NTLM initiator (behind a recording proxy) against a real acceptor",
                   "endpoint mapper": "model (RefDC)", "transport": "simulated"}
@@ -587,7 +630,7 @@ class C15(common.Check):
                    "an alter_context_resp answering a bind (and vice versa) is recorded, not judged",
                    "context results inside alter_context_resp are recorded, not judged"]
     required_fired = ("terminal_nak", "terminal_fault", "terminal_eof", "terminal_request", "hs_on", "hs_off", "conforming_success",
-                      "real_success", "real_ntlm", "real_negotiate", "real_terminal_nak", "real_terminal_eof", "bind_ack_answers_alter_context", "thread_pairs", "thread_overlap", "hs_first_ack_without_flag_later_with", "stream_ended_inside_handshake_pdu", "slow_handshake_leg")
+                      "real_success", "real_ntlm", "real_negotiate", "real_terminal_nak", "real_terminal_eof", "bind_ack_answers_alter_context", "thread_pairs", "thread_overlap", "hs_first_ack_without_flag_later_with", "stream_ended_inside_handshake_pdu", "slow_handshake_leg", "slow_security_provider", "epm_hop_scripted", "epm_context_not_accepted")
 
     def exhaustive(self, tier):
         return True
@@ -632,6 +675,21 @@ class C15(common.Check):
                         if tier == "thorough" or (m + legs + int(secs)) % 2 == 0 or secs == 31.0:
                             out.append({"cfg": {"legs": legs, "empty_last": False, "sig": 16}, "script": [["ack", "pos", "AN", 1, "tok"] for _ in range(legs)] + [["response"]],
                                         "flavour": fl, "api": "raw", "seed": len(out), "slow_leg": [m, secs]})
+        # the unauthenticated endpoint-mapper hop meets a server that does not accept the offered context
+        for fl in ("sync", "async"):
+            for first in (["ack", "bind_ack", "U", 0, "none"], ["ack", "bind_ack", "P", 0, "none"], ["ack", "bind_ack", "N", 0, "none"], ["ack", "bind_ack", "", 0, "none"],
+                          ["ack", "bind_ack", "UA", 0, "none"], ["ack", "bind_ack", "PN", 1, "none"], ["nak"], ["ack", "bind_ack", "A", 0, "none"]):
+                for tail in (["response"], ["fault"], ["eof"]):
+                    out.append({"epm_script": [first, tail], "flavour": fl, "seed": len(out)})
+        # a slow security provider: one leg of step() takes 16 s .. 10 min (a slow KDC, a credential prompt); on the async client
+        # the job runs in the executor and its result arrives that much later
+        for legs in (2, 3, 4):
+            for fl in ("sync", "async"):
+                for leg in range(1, legs + 1):
+                    for secs in (16.0, 45.0, 600.0):
+                        if tier == "thorough" or (leg + legs + int(secs)) % 2 == 0 or secs == 16.0:
+                            out.append({"cfg": {"legs": legs, "empty_last": False, "sig": 16, "slow_step": [leg, secs]}, "script": [["ack", "pos", "AN", 1, "tok"] for _ in range(legs)] + [["response"]],
+                                        "flavour": fl, "api": ("raw", "getkey")[(leg + legs) % 2], "seed": len(out), "slow_provider": True})
         # two handshakes at once from caller threads (one server advertises header signing, the other does not; 2 and 3 legs)
         from checks import threadpure
 
@@ -672,6 +730,8 @@ class C15(common.Check):
         return out
 
     def run_case(self, case):
+        if "epm_script" in case:
+            return run_epm_script(case)
         if "pair" in case:
             return run_thread_pair(case)
         if "real" in case:
@@ -680,7 +740,9 @@ class C15(common.Check):
         viol, probes = judge(case, out, world, peer, record, conn)
         if case.get("slow_leg"):
             probes["slow_handshake_leg"] = 1
-        nontrivial = bool(case.get("slow_leg")) or any(el[0] != "ack" or el[2] != "AN" or el[3] != 1 or el[4] != "tok" for el in case["script"][:-1]) or case["script"][-1] != ["response"]
+        if case.get("slow_provider"):
+            probes["slow_security_provider"] = 1
+        nontrivial = bool(case.get("slow_leg") or case.get("slow_provider")) or any(el[0] != "ack" or el[2] != "AN" or el[3] != 1 or el[4] != "tok" for el in case["script"][:-1]) or case["script"][-1] != ["response"]
         return {"viol": viol, "digest": world.digest() + out.brief(), "key": common.key_hash(case) if nontrivial else None,
                 "fired": {"script_elements_played": len(peer.sent), "peer_eof": world.stats.get("peer_eof", 0)}, "probes": probes,
                 "vtime_ns": world.stats.get("vtime_ns", 0)}
@@ -703,6 +765,8 @@ class C15(common.Check):
         if "real" in case:
             if case["flavour"] == "async":
                 yield dict(case, flavour="sync")
+            return
+        if "epm_script" in case:
             return
         s = case["script"]
         for i in range(len(s)):
